@@ -4,8 +4,10 @@ harness.load_contracts()
 from pyvc.contract import REGISTRY
 from pyvc import verify
 keys = sys.argv[1:]
-if keys and keys[0].endswith('*'):
-    keys=[k for k in REGISTRY if k.startswith(keys[0][:-1])]
+ks=[]
+for k in keys:
+    ks += [r for r in REGISTRY if r.startswith(k[:-1])] if k.endswith('*') else [k]
+keys=ks
 for k in keys:
     rep = verify.verify(REGISTRY[k])
     print(k, rep.status, rep.reason, rep.paths, round(rep.gen_time,2))
